@@ -178,7 +178,7 @@ func Exec(f *File, maxSteps int) *Result {
 		case DEFBLOCK:
 			if len(blocks) == BlockStackSize {
 				// the VM checks before reading the operands
-				return fail(last-in.Len+1, "nest", "nested too deep")
+				return fail(last-in.Len+1, "nest")
 			}
 			ty, ok1 := strConst(in.Args[0])
 			nm, ok2 := strConst(in.Args[1])
@@ -199,7 +199,7 @@ func Exec(f *File, maxSteps int) *Result {
 					k += "." + b.Name
 				}
 				if _, dup := parent.Fields[k]; dup {
-					return fail(last, "dupchild", "child "+k+" duplicate")
+					return fail(last, "dupchild")
 				}
 				parent.Fields[k] = *b
 			} else {
@@ -253,7 +253,7 @@ func Exec(f *File, maxSteps int) *Result {
 			}
 			tgt, sel := in.Args[1]&0xF0, in.Args[1]&0x0F
 			if sel == SelOne && len(cand) != 1 {
-				return fail(last, "bindcount", fmt.Sprintf("found %d blocks of type %s", len(cand), ty), "expected just 1")
+				return fail(last, "bindcount", fmt.Sprintf("found %d blocks of type %s", len(cand), ty))
 			}
 			var chosen []bcl.Block
 			switch sel {
@@ -264,7 +264,7 @@ func Exec(f *File, maxSteps int) *Result {
 			case SelAll:
 				chosen = cand
 			default:
-				return fail(last, "bindinvalid", "invalid bind target and selector")
+				return fail(last, "bindinvalid")
 			}
 			switch {
 			case tgt == TgtStruct && sel != SelAll:
@@ -272,7 +272,7 @@ func Exec(f *File, maxSteps int) *Result {
 			case tgt == TgtSlice:
 				res.Binding = bcl.SliceBinding{Value: chosen}
 			default:
-				return fail(last, "bindinvalid", "invalid bind target and selector")
+				return fail(last, "bindinvalid")
 			}
 		case RET:
 			res.Out = out.String()
@@ -284,7 +284,7 @@ func Exec(f *File, maxSteps int) *Result {
 			return internal("unknown opcode %d at %d", in.Op, in.Off)
 		}
 		if !pushed {
-			return fail(last, "overflow", "stack overflow")
+			return fail(last, "overflow")
 		}
 	}
 }
